@@ -85,6 +85,7 @@ def check(ctx):
     ctx.rule("R2", "arity agreement: spellings tokenised as IOREDIRECT2 take no target in the grammar and the decoder never opens a file for them; IOREDIRECT1/>/>>/< take one and the decoder always does", floor=8)
     ctx.rule("R3", "the stream slots are single-assignment (first value wins, None ignored, otherwise close + XonshError) and are written privately only by the documented sites", floor=6)
     ctx.rule("R4", "a pending a>p / e>p sentinel is either resolved by the following pipe or reported; it cannot reach execution", floor=3)
+    ctx.rule("R6", "where a pipe takes a stream slot the assignment goes through the public conflict-checking setter on every path (documented exemption: stdout under e>p)", floor=4)
     ctx.rule("R5", "sibling stage-kind handlers agree on the merge flags (subprocess.STDOUT on stderr, the `2` flag on stdout)", floor=3)
 
     tk = ctx.repo.module(TK)
@@ -111,7 +112,10 @@ def check(ctx):
     # ---- decoder decision structure
     rs = sp.func("_redirect_streams")
     st = f"{SP}:_redirect_streams"
-    ps = dtable.paths(rs)
+    from ..engine import inline as _inl0
+
+    rs_flat = _inl0.flatten(ctx.repo, rs, depth=2, skip=("_parse_redirects", "safe_open"))
+    ps = [p_ for p_ in dtable.paths(rs_flat) if dtable.feasible(p_)]
     rparam, locparam = rs.args.args[0].arg, rs.args.args[1].arg
     rows = {}  # map name -> shape
     subj_ast = {}  # row -> AST of the expression that is looked up
@@ -295,37 +299,52 @@ def check(ctx):
                 setter = n
         if setter is None:
             raise AnchorMissing(f"{SP}:SubprocSpec.{slot} setter")
-        sps = dtable.paths(setter)
+        from ..engine import inline as _inl
+
+        fsetter = _inl.flatten(ctx.repo, setter, depth=2, skip=("safe_close", "get_command_str"))
+        sps = [p for p in dtable.paths(fsetter, stores=True) if dtable.feasible(p)]
         val = setter.args.args[1].arg
         priv = f"self._{slot}"
         ok_first = ok_none = ok_raise = False
         bad = None
         for p in sps:
-            lits = [(unparse(e), pol) for e, pol in dtable.literals(p)]
+            lits = set()
+            for e, pol in p.conds:
+                for e2, p2 in dtable.branches(e, pol)[0] if len(dtable.branches(e, pol)) == 1 else [dtable.normalise(e, pol)]:
+                    lits.add((unparse(e2), p2))
+            writes = [e for e in p.effects if isinstance(e, ast.Assign) and unparse(e.targets[0]) == priv]
             empty = (f"{priv} is None", True) in lits
-            assigns = [n for n in ast.walk(ast.Module(body=[p.node] if p.node else [], type_ignores=[]))]
-            del assigns
             if empty:
-                ok_first = True
+                # the first value is stored (exactly the value handed in)
+                ok_first = ok_first or (len(writes) == 1 and unparse(writes[0].value) == val and p.outcome == "fall")
+                if not (len(writes) == 1 and unparse(writes[0].value) == val):
+                    bad = p
+                continue
+            if writes:
+                bad = p  # the slot is overwritten although it is taken
                 continue
             if (f"{val} is None", True) in lits:
-                # must not write the slot
                 ok_none = p.outcome == "fall"
+                if p.outcome != "fall":
+                    bad = p
                 continue
             if p.outcome == "raise" and "XonshError" in unparse(p.value):
                 closes = any("safe_close" in unparse(e) for e in p.effects)
                 ok_raise = closes
+                if not closes:
+                    bad = p
                 continue
             bad = p
-        # writes to the private slot happen only on the 'slot is None' path
-        scfg = CFG(setter)
-        for n in scfg.nodes:
-            if n.kind == "stmt" and isinstance(n.ast, ast.Assign) and any(unparse(t) == priv for t in n.ast.targets):
-                facts = facts_text(facts_at(scfg, n))
-                if f"{priv} is None" not in facts:
-                    bad = n
         ctx.ob("R3", f"{SP}:SubprocSpec.{slot}.setter", "first value wins; None is ignored; a second value is closed and reported as XonshError", ok_first and ok_none and ok_raise and bad is None, key=f"setter|{slot}", where=loc(setter), detail=f"first={ok_first} none={ok_none} raise+close={ok_raise} other={bad!r}")
-    # private writers
+    # private writers (a helper whose every call site lies inside a documented writer counts as part of it)
+    def only_called_from(m_, q_, allowed_, depth=2):
+        bare = q_.split(".")[-1]
+        callers = [q2 for q2, f2 in m_.functions() if q2 != q_ and any((call_name(c) or "").split(".")[-1] == bare for c in calls_in(f2))]
+        other_mods = [m2.rel for m2 in ctx.repo.modules("xonsh", containing=bare) if m2.rel != m_.rel and any((call_name(c) or "").split(".")[-1] == bare for c in ast.walk(m2.tree) if isinstance(c, ast.Call))]
+        if not callers or other_mods or bare.startswith("__"):
+            return False
+        return all(c_ in allowed_ or (depth > 0 and only_called_from(m_, c_, allowed_, depth - 1)) for c_ in callers)
+
     allowed = {"SubprocSpec.__init__", "SubprocSpec.stdin", "SubprocSpec.stdout", "SubprocSpec.stderr", "cmds_to_specs", "_make_last_spec_captured"}
     for m in ctx.repo.modules("xonsh/procs"):
         for q, fn in m.functions():
@@ -335,7 +354,7 @@ def check(ctx):
                     for t in tg:
                         for tt in (t.elts if isinstance(t, ast.Tuple) else [t]):
                             if isinstance(tt, ast.Attribute) and tt.attr in ("_stdin", "_stdout", "_stderr") and not (isinstance(tt.value, ast.Name) and tt.value.id == "self" and m.rel != SP):
-                                ok = m.rel == SP and q in allowed
+                                ok = m.rel == SP and (q in allowed or only_called_from(m, q, allowed))
                                 ctx.ob("R3", f"{m.rel}:{q}", f"`{short(n, 60)}` bypasses the single-assignment setter only at a documented site", ok, key=f"{m.rel}:{q}|private-slot-write|{tt.attr}", where=loc(n))
     # in cmds_to_specs the private writes only clear a sentinel that was just tested
     c2s = sp.func("cmds_to_specs")
@@ -391,6 +410,34 @@ def check(ctx):
         if isinstance(n, ast.Compare) and "self.stdout" in unparse(n) and const_value(n.comparators[0], None) == 2:
             by_value = True
     ctx.ob("R5", f"{PX}:ProcProxy._pick_buf", "an integer handle 0-2 selects the standard stream by its value (stdout slot holding the `2` flag of o>e means stderr)", by_value, key="_pick_buf|fd-flag-2-not-distinguished", where=loc(pb))
+
+
+    # ------------------------------------------------------------------ R6
+    # conflicts are reported by the public slot setters (R3).  Where a pipe takes a slot, the
+    # assignment must therefore go through the setter on every path; the one documented exemption is
+    # stdout under `e>p` (the pipe then carries stderr only when stdout was diverted).  A wiring that
+    # tests the private slot and silently skips the setter accepts `cmd > file | next`.
+    from ..engine import inline, dtable as _dt
+
+    flat = inline.flatten(ctx.repo, c2s, depth=1, skip=("_redirect_streams", "_parse_redirects", "_flatten_cmd_redirects"))
+    pipe_ifs = [n for n in ast.walk(flat) if isinstance(n, ast.If) and isinstance(n.test, ast.Compare) and any(const_value(x) == "|" for x in [n.test.left] + n.test.comparators) and any("from_pipe" in unparse(c.func) for c in calls_in(n, local=False))]
+    if len(pipe_ifs) != 1:
+        raise AnalysisError(f"{SP}:cmds_to_specs: expected one `redirect == '|'` wiring branch, found {len(pipe_ifs)}")
+    n_paths = 0
+    for pth in _dt.paths(pipe_ifs[0].body, stores=True, loops="skip"):
+        if pth.outcome != "fall" or not _dt.feasible(pth):
+            continue
+        n_paths += 1
+        stores_ = [e for e in pth.effects if isinstance(e, ast.Assign) and isinstance(e.targets[0], ast.Attribute)]
+        pub_out = any(e.targets[0].attr == "stdout" and "write_fd" in unparse(e.value) for e in stores_)
+        pub_in = any(e.targets[0].attr == "stdin" and "read_fd" in unparse(e.value) for e in stores_)
+        conds_ = [(unparse(e), pol) for e, pol in pth.conds]
+        epipe = any(t.endswith("._stderr is _PIPE_ERR") and pol for t, pol in conds_)
+        desc = "; ".join(("" if pol else "not ") + t for t, pol in conds_) or "unconditional"
+        ctx.ob("R6", f"{SP}:cmds_to_specs", f"pipe wiring, path [{desc}]: the upstream stdout slot is taken through the conflict-checking setter (or the pipe carries only stderr: e>p)", pub_out or epipe, key="pipe-wiring|stdout-setter-skipped", where=loc(pipe_ifs[0]))
+        ctx.ob("R6", f"{SP}:cmds_to_specs", f"pipe wiring, path [{desc}]: the downstream stdin slot is taken through the conflict-checking setter", pub_in, key="pipe-wiring|stdin-setter-skipped", where=loc(pipe_ifs[0]))
+    if n_paths < 2:
+        raise AnalysisError(f"{SP}:cmds_to_specs: only {n_paths} feasible wiring path(s)")
 
 
 META = {
